@@ -589,10 +589,37 @@ def random_history(rng, ver, style, mx, nops):
     return ops
 
 
+def corpus_histories(ver, prefix):
+    """histories under corpus/client/<prefix>*.txt (witnesses of past findings; always run first)"""
+    d = os.path.join(lib.ROOT, "corpus", "client")
+    out = []
+    for f in sorted(os.listdir(d)) if os.path.isdir(d) else []:
+        if not (f.startswith(prefix) and f.endswith(".txt")):
+            continue
+        cur = None
+        for l in open(os.path.join(d, f)).read().splitlines():
+            l = l.strip()
+            if not l or l.startswith("#"):
+                continue
+            if l.startswith(("NEW", "LNEW")):
+                if cur:
+                    out.append(cur)
+                cur = [l]
+            elif cur is not None:
+                cur.append(l)
+        if cur:
+            out.append(cur)
+    if prefix == "state":
+        out = [h for h in out if h[0].split()[1] == ver]
+    return out
+
+
 def gen_histories(ctx, ver):
     """yields (group, history) — group names the generator (for the histograms)."""
     th = ctx.thorough()
-    depths = ((1, 7 if th else 6), (2, 6 if th else 5), (3, 5 if th else 4)) if ver == "4" else ((1, 6 if th else 5), (2, 5 if th else 4), (3, 5 if th else 4))
+    for h in corpus_histories(ver, "state"):
+        yield "corpus", h
+    depths = ((1, 7 if th else 6), (2, 5), (3, 5 if th else 4)) if ver == "4" else ((1, 6 if th else 5), (2, 5 if th else 4), (3, 4))
     for mx, L in depths:
         for h in exhaustive_histories(ver, mx, L):
             yield "exh-max%d-len%d" % (mx, L), h
@@ -600,7 +627,7 @@ def gen_histories(ctx, ver):
         for h in incoming_histories(ver, mx, 2 if th else 1):
             yield "incoming-max%d" % mx, h
     rng = lib.Rng(ctx.seed * 1000 + int(ver))
-    n = 40000 if th else 3000
+    n = 20000 if th else 3000
     for k in range(n):
         style = ["inorder", "reorder", "hostile", "mixed"][k % 4]
         mx = [1, 2, 3, 4, 5, 10, 100, 65535][rng.below(8)] if k % 3 else [1, 2, 3][rng.below(3)]
@@ -858,7 +885,7 @@ def loop_run(ctx, mexe):
         return res
     res["built"] = True
     rng = lib.Rng(ctx.seed * 7 + 5)
-    n = 4000 if ctx.thorough() else 400
+    n = 3000 if ctx.thorough() else 400
     model = subprocess.Popen([mexe, "loop"], stdin=subprocess.PIPE, stdout=subprocess.PIPE, text=True, bufsize=1)
     hs = []
     for k in range(n):
@@ -871,6 +898,13 @@ def loop_run(ctx, mexe):
             res["truncated"] += 1
         hs.append((mx, ops, mans))
     model.stdin.close(); model.wait()
+    for h in corpus_histories("4", "loop"):
+        rc0, mans, _ = lib.run_on_text(mexe, "\n".join(h) + "\n", args=["loop"])
+        if rc0 == 0 and len(mans) == len(h):
+            cut = next((i for i, a in enumerate(mans) if a in ("AMBIG", "NOCONN", "DISABLED", "PANIC")), None)
+            if cut is not None:
+                h, mans = h[:cut], mans[:cut]
+            hs.insert(0, (int(h[0].split()[1]), h, mans))
     text = "\n".join("\n".join(ops) for (_, ops, _) in hs) + "\n"
     rc, impl, err = lib.run_on_text(lexe, text)
     total = sum(len(ops) for (_, ops, _) in hs)
@@ -1154,7 +1188,7 @@ def run(ctx):
                        "{publish QoS1, publish QoS2, subscribe, PUBACK/PUBREC/PUBCOMP k for every k<=max, PUBACK max+1, CLEAN} (prefix-closed, so all shorter ones are covered); "
                        "every incoming packet type x id in {0,1,max,max+1,65535} x manual_acks after 0-2 publishes; random long runs (in-order broker, reordering broker, "
                        "duplicating/unsolicited acks, ids above max, clean+replay) with max in {1,2,3,4,5,10,100,65535}. Each history runs on rumqttc::MqttState and on the extracted Coq model; "
-                       "monitors read the implementation's answers only. " % ("7/6/5 (v4), 6/5/5 (v5)" if th else "6/5/4 (v4), 5/4/4 (v5)")) + RULES[prop] + "; distinct histories counted by hash."
+                       "monitors read the implementation's answers only. " % ("7/5/5 (v4), 6/5/4 (v5)" if th else "6/5/4 (v4), 5/4/4 (v5)")) + RULES[prop] + "; distinct histories counted by hash."
     ctx.cov["evaluations"] = r["evaluations"]
     ctx.cov["ops"] = r["ops"]
     ctx.cov["traces_validated_against_impl"] = r["evaluations"] if not r["driver_failure"] else 0
